@@ -369,7 +369,7 @@ def produce_cex(h, mem_gb):
     path = os.path.join(CEX, h["name"] + ".rs")
     header = ("// Counterexample for Kani harness %s (property %s)\n// produced by: %s\n"
               "// To replay by hand: append to /verif/kani/src/%s and run\n"
-              "//   cargo kani playback -Z concrete-playback --features %s --test <fn name below>\n"
+              "//   cargo kani playback -Z concrete-playback --features %s -- <fn name below>\n"
               % (h["path"], h["property"], " ".join(cmd), h["file"], h["property"].lower()))
     with open(path, "w") as f:
         f.write(header + test)
@@ -391,7 +391,23 @@ def produce_cex(h, mem_gb):
             f.write('[net]\noffline = true\n\n[build]\ntarget-dir = "%s"\n' % PLAYBACK_TARGET)
         with open(os.path.join(dst, "src", h["file"]), "a") as f:
             f.write("\n// ---- appended by run.py for replay ----\n" + test)
-        pcmd = ["cargo", "kani", "playback", "-Z", "concrete-playback", "--features", h["property"].lower(), "--test", tname]
+        # playback is `cargo test`, i.e. cfg(test): the unit-test modules at the end of the
+        # #[path]-included /repo files would be compiled too and need the whole EVM actor
+        # (MockRuntime, Machine, tests/test_vectors.rs).  The scratch copy therefore includes
+        # copies of those files cut at their trailing top-level `#[cfg(test)]` module.
+        librs = os.path.join(dst, "src", "lib.rs")
+        ltxt = open(librs).read()
+        os.makedirs(os.path.join(dst, "repo_src"), exist_ok=True)
+        for i, pth in enumerate(sorted(set(re.findall(r'#\[path = "(%s/[^"]+)"\]' % re.escape(REPO), ltxt)))):
+            src_lines = open(pth).read().split("\n")
+            cut = next((k for k, l in enumerate(src_lines) if l.rstrip() == "#[cfg(test)]"), len(src_lines))
+            cp = os.path.join(dst, "repo_src", "%d_%s" % (i, os.path.basename(pth)))
+            with open(cp, "w") as f:
+                f.write("\n".join(src_lines[:cut]) + "\n")
+            ltxt = ltxt.replace('"%s"' % pth, '"%s"' % cp)
+        with open(librs, "w") as f:
+            f.write(ltxt)
+        pcmd = ["cargo", "kani", "playback", "-Z", "concrete-playback", "--features", h["property"].lower(), "--", tname]
         plog = os.path.join(LOGS, h["name"] + ".replay.log")
         env = dict(ENV)
         env["CARGO_TARGET_DIR"] = PLAYBACK_TARGET
